@@ -1,6 +1,6 @@
 (* C50 -- property theorems (statements only; proofs in C50Proofs.v; model in C50Model.v), for every type V of field values. *)
 From Coq Require Import List.
-From C50 Require Import C50Model C50Proofs.
+From C50 Require Import C50Model C50Proofs C50Accel.
 
 (* a rejected attempt followed by revert leaves every field read by the next attempt as it was *)
 Theorem C50_rejected_attempt_leaves_no_trace : forall (V : Type) it (s : sstate V),
@@ -25,3 +25,26 @@ Theorem C50_period_counts_accepted_steps : forall (V : Type) evs (s : sstate V),
   period V (run V evs s) = (period V s + length (accepted_only V evs))%nat.
 Proof. intros V evs s H; exact (run_period V evs H s). Qed.
 Print Assumptions C50_period_counts_accepted_steps.
+
+(* history of the acceleration algorithms of the shift-register family (Cast3M: depth 3, trigger >= 3; secant: 2, >= 3; Irons-Tuck: 2,
+   >= 2; Steffensen: 3, >= 3): GenericSolver never clears it after a rejected attempt, but with depth <= trigger the unknowns produced
+   by every pass of the next attempt do not depend on what the rejected attempt left behind *)
+Theorem C50_stale_acceleration_history_is_never_read : forall (X U : Type) (d trig : nat) entry accel newton,
+  d <= trig -> forall (h h' : list X) (u : U) n,
+  snd (passes X U d trig entry accel newton n h u) = snd (passes X U d trig entry accel newton n h' u).
+Proof. exact stale_history_is_never_read. Qed.
+Print Assumptions C50_stale_acceleration_history_is_never_read.
+
+(* and from pass `depth` on the register itself is the one of a run that never attempted the rejected step *)
+Theorem C50_acceleration_register_rewritten : forall (X U : Type) (d trig : nat) entry accel newton,
+  d <= trig -> forall (h h' : list X) (u : U) n, d <= n -> length h <= d -> length h' <= d ->
+  fst (passes X U d trig entry accel newton n h u) = fst (passes X U d trig entry accel newton n h' u).
+Proof. exact register_rewritten. Qed.
+Print Assumptions C50_acceleration_register_rewritten.
+
+(* the hypothesis depth <= trigger cannot be dropped *)
+Theorem C50_history_may_be_read_when_register_deeper_than_trigger :
+  exists (d trig : nat) (entry : nat -> nat -> nat) accel newton (h h' : list nat) (u : nat) (n : nat),
+  trig < d /\ snd (passes nat nat d trig entry accel newton n h u) <> snd (passes nat nat d trig entry accel newton n h' u).
+Proof. exact history_read_when_deeper_than_trigger. Qed.
+Print Assumptions C50_history_may_be_read_when_register_deeper_than_trigger.
